@@ -154,6 +154,9 @@ func (r *reference) resolveEnv(cfg *Config, opts *options) (string, parse.Config
 		}
 	}
 
+	if err == nil {
+		err = ErrMissing
+	}
 	return "", parse.DefaultConfig, err
 }
 
